@@ -263,8 +263,33 @@ def _harmless_call(c):
     return False
 
 
+NONNULL = set()      # set by index.Repo: suffix patterns of locations that never hold None
+
+
+def loc_suffix(e):
+    """('key', '*') for X['key'][<anything>] -- the pattern a subscript location is filed under"""
+    if isinstance(e, ast.Subscript) and isinstance(e.value, ast.Subscript) and isinstance(
+            e.value.slice, ast.Constant) and isinstance(e.value.slice.value, str) \
+            and not isinstance(e.slice, ast.Slice):
+        return (e.value.slice.value, '*')
+    return None
+
+
+def never_none(v):
+    if isinstance(v, (ast.List, ast.Dict, ast.Set, ast.Tuple, ast.ListComp, ast.DictComp, ast.SetComp, ast.JoinedStr)):
+        return True
+    if isinstance(v, ast.Constant):
+        return v.value is not None
+    if isinstance(v, ast.Call) and isinstance(v.func, ast.Name) and v.func.id in (
+            'list', 'dict', 'set', 'tuple', 'int', 'float', 'str', 'len', 'sorted'):
+        return True
+    return False
+
+
 def _lit_state(v):
-    """('const', value) / ('empty',) for a literal right-hand side, else None"""
+    """('const', value) / ('empty',) / ('notnone',) for a right-hand side whose value is known, else None"""
+    if loc_suffix(v) in NONNULL:
+        return ('notnone',)
     if isinstance(v, ast.Constant) and isinstance(v.value, (bool, int, str, type(None))):
         return ('const', v.value)
     if isinstance(v, (ast.List, ast.Tuple, ast.Set)) and not v.elts:
@@ -288,6 +313,8 @@ def _truth(test, env, fid):
             return None
         if st[0] == 'nonempty':
             return True
+        if st[0] == 'notnone':
+            return None
         return False if st[0] == 'empty' else bool(st[1])
     if isinstance(test, ast.Call) and isinstance(test.func, ast.Name) and test.func.id in ('len', 'bool') \
             and len(test.args) == 1:
@@ -317,6 +344,11 @@ def _truth(test, env, fid):
                         o = {ast.Lt: ast.Gt, ast.Gt: ast.Lt, ast.LtE: ast.GtE, ast.GtE: ast.LtE}.get(o, o)
                     return {ast.Eq: 0 == n, ast.NotEq: 0 != n, ast.Lt: 0 < n, ast.LtE: 0 <= n,
                             ast.Gt: 0 > n, ast.GtE: 0 >= n}.get(o)
+            if isinstance(a, ast.Name) and isinstance(b, ast.Constant) and b.value is None and isinstance(
+                    op, (ast.Eq, ast.NotEq, ast.Is, ast.IsNot)):
+                st = env.get((fid, a.id))
+                if st is not None and st[0] in ('notnone', 'empty', 'nonempty'):
+                    return isinstance(op, (ast.NotEq, ast.IsNot))
             if isinstance(a, ast.Name) and isinstance(b, ast.Constant):
                 st = env.get((fid, a.id))
                 if st is not None and st[0] == 'const' and isinstance(op, (ast.Eq, ast.NotEq, ast.Is, ast.IsNot)):
